@@ -57,13 +57,14 @@ def main(ctx, replay=None):
                        "distinct exponents per (q,m); polynomial ln(omega) tables up to the call's exactness degree; a generic smooth table "
                        "(triple consistency); distinct by (method, order, nv, table kind)")
     ctx.assumptions += ["scipy interpolators are the interpolants they claim (dependency)", "finite-difference consistency tolerance 1e-4 (gamma), 1e-3 of range (integral of V dgamma/dV)"]
-    nq, np_ = 2, 6
+    SHAPES = [(2, 6), (6, 6), (3, 3), (4, 3), (1, 6), (3, 9), (9, 9)]          # incl. tables with as many q-points as modes
     if ctx.tier == "quick":
         sel = [c for c in calls if c["nv"] in (4, 7, 12) or c["order"] == c["nv"] - 1]
     else:
         sel = calls
-    for c in sel:
+    for ci, c in enumerate(sel):
         method, order, nv = c["method"], c["order"], c["nv"]
+        nq, np_ = SHAPES[ci % len(SHAPES)]
         sig = {"method": method}
         vmax = float(rng.uniform(300, 900))
         volumes = numpy.linspace(vmax, 0.75 * vmax, nv)
@@ -76,7 +77,7 @@ def main(ctx, replay=None):
         gamma_zero = bool(rng.random() < 0.5)
         if gamma_zero:
             freqs[:, 0, :3] = 0.0        # as in real files; otherwise arbitrary positive numbers: the output must be zero either way
-        case = {"method": method, "order": order, "nv": nv, "table": "power_law", "gamma_acoustic_zero": gamma_zero}
+        case = {"method": method, "order": order, "nv": nv, "table": "power_law", "gamma_acoustic_zero": gamma_zero, "nq": nq, "np": np_}
         ctx.count(case)
         try:
             w, gam, kap = call(method, order, volumes, freqs, v_array)
@@ -95,7 +96,7 @@ def main(ctx, replay=None):
         elif not numpy.allclose(w[:, mask], wexp[:, mask], rtol=TOL[method][0]):
             bad = "frequency is not the power law on the extrapolated grid (q/mode mix-up or inexact interpolant)"
         elif not numpy.allclose(gam[:, mask], numpy.broadcast_to(g[None], gam.shape)[:, mask], rtol=0, atol=TOL[method][1]):
-            bad = f"gamma = {gam[0, 1, 0]!r}.. expected the exponents {g[1, 0]!r}.."
+            bad = f"gamma = {gam[0, -1, -1]!r}.. expected the exponents {g[-1, -1]!r}.."
         elif not numpy.allclose(kap[:, mask], 0.0, atol=TOL[method][2]):
             bad = f"V dgamma/dV = {numpy.abs(kap[:, mask]).max()!r}, expected 0 for power laws"
         if bad:
@@ -120,7 +121,7 @@ def main(ctx, replay=None):
             ew = numpy.exp(evaluate(poly["lnw"], {"x": x}))
             eg = evaluate(poly["gamma"], {"x": x}) + 0 * x
             ek = evaluate(poly["vdgdv"], {"x": x}) + 0 * x
-            if not (numpy.allclose(w[:, 1, 0], ew, rtol=max(1e-6, TOL[method][0])) and numpy.allclose(gam[:, 1, 0], eg, atol=max(1e-5, 5 * TOL[method][1])) and numpy.allclose(kap[:, 1, 0], ek, atol=max(1e-4, 20 * TOL[method][2]))):
+            if not (numpy.allclose(w[:, -1, -1], ew, rtol=max(1e-6, TOL[method][0])) and numpy.allclose(gam[:, -1, -1], eg, atol=max(1e-5, 5 * TOL[method][1])) and numpy.allclose(kap[:, -1, -1], ek, atol=max(1e-4, 20 * TOL[method][2]))):
                 ctx.violation(f"{method} order {order} nv {nv}: ln(omega) polynomial of degree {poly['deg']} in ln V is not reproduced "
                               f"(gamma err {numpy.abs(gam[:,1,0]-eg).max():.2e}, V dgamma/dV err {numpy.abs(kap[:,1,0]-ek).max():.2e})", case2,
                               {**sig, "clause": "in_class"})
@@ -138,12 +139,12 @@ def main(ctx, replay=None):
             ctx.violation(f"{method} order {order} nv {nv} on a generic table raised {ex!r}", case3, {**sig, "clause": "raises", "exc": type(ex).__name__})
             continue
         xd = numpy.log(dense)
-        wv, gv, kv = w[:, 1, 0], gam[:, 1, 0], kap[:, 1, 0]
+        wv, gv, kv = w[:, -1, -1], gam[:, -1, -1], kap[:, -1, -1]
         if not (numpy.all(numpy.isfinite(wv)) and numpy.all(numpy.isfinite(gv)) and numpy.all(numpy.isfinite(kv))):
             ctx.violation(f"{method} order {order} nv {nv}: non-finite values on a generic table", case3, {**sig, "clause": "generic", "nonfinite": True})
             continue
         fd = -(numpy.log(wv[2:]) - numpy.log(wv[:-2])) / (xd[2:] - xd[:-2])
-        if numpy.max(numpy.abs(fd - gv[1:-1])) > 5e-3 * max(1.0, numpy.max(numpy.abs(gv))):   # (kinks of C1 interpolants at the nodes: ~3e-4)
+        if not numpy.max(numpy.abs(fd - gv[1:-1])) <= 5e-3 * max(1.0, numpy.max(numpy.abs(gv))):   # (kinks of C1 interpolants at the nodes: ~3e-4)
             ctx.violation(f"{method} order {order} nv {nv}: gamma is not -dln(omega)/dlnV of the returned frequency "
                           f"(max dev {numpy.max(numpy.abs(fd - gv[1:-1])):.3g})", case3, {**sig, "clause": "gamma_consistent"})
             continue
